@@ -139,6 +139,9 @@ func c02NarrowStage(rep *kit.Report, scratch string, queries []vQuery) {
 
 // c02NarrowStage / c02WideStage are selected by VERIF_C02_STAGE (narrow | wide | unset = both); the wide stage runs
 // with the share of the deadline the narrow stage left (both stop at the deadline with exhaustive:false).
+// share of the internal deadline the narrow stage may use when both stages run
+const c02NarrowShare = 0.5
+
 func c02StageWanted(name string) bool {
 	s := kit.Getenv("VERIF_C02_STAGE", "")
 	return s == "" || s == name
@@ -159,6 +162,11 @@ func c02Explore(rep *kit.Report, scratch string, ops []string, depth int, querie
 		bump := depth - 1
 		if kit.Mine(sub) && (allow == nil || allow(seq)) {
 			if rep.Expired() {
+				return
+			}
+			if d := rep.DeadlineSeconds(); d > 0 && c02StageWanted("wide") && rep.RealSeconds() > c02NarrowShare*float64(d) {
+				// the wide stage gets the rest of the deadline
+				rep.Cut("narrow stage stopped at its share of the deadline")
 				return
 			}
 			for i, o := range seq {
